@@ -56,21 +56,21 @@ def plan_jobs(tier, sd, V, wd):
     q = tier == 'quick'
     jobs = []
     # unit traces on the two slow (Python) simulators first: they decide the wall time
-    for sim, n in (('Simulator', 36 if q else 400), ('CMIOSimulator', 20 if q else 200), ('CSimulator', 170 if q else 2500), ('CCMIOSimulator', 90 if q else 1200)):
+    for sim, n in (('Simulator', 48 if q else 1200), ('CMIOSimulator', 24 if q else 600), ('CSimulator', 240 if q else 7500), ('CCMIOSimulator', 120 if q else 3600)):
         trs = []
         for i in range(n):
             style = ('rom', 'rand', 'rand', 'partial')[i % 4]
             trs.append(keysdrv.gen_load_trace(rnd, V, sim, style))
         for part in chunks(trs, 16 if sim.startswith('C') else 32):
             jobs.append(('load', part))
-    for sim, n in (('Simulator', 60 if q else 800), ('CMIOSimulator', 40 if q else 400), ('CSimulator', 200 if q else 3000), ('CCMIOSimulator', 100 if q else 1500)):
+    for sim, n in (('Simulator', 80 if q else 2400), ('CMIOSimulator', 48 if q else 1200), ('CSimulator', 280 if q else 9000), ('CCMIOSimulator', 140 if q else 4500)):
         trs = [keysdrv.gen_press_trace(rnd, V, sim) for _ in range(n)]
         for part in chunks(trs, 8):
             jobs.append(('press', part))
     # end to end: typed lines
     cover = set(V['digits'] + V['letters'] + V['keyword'] + V['symchars'] + V['symwords'] + V['emode'] + ['SPACE'])
     lines = []
-    for i in range(260 if q else 4000):
+    for i in range(360 if q else 12000):
         cfg = {}
         if i % 13 == 0:
             cfg = {'python': 1}
@@ -85,16 +85,16 @@ def plan_jobs(tier, sd, V, wd):
     lines.append(('CLEAR 34999: LOAD "" CODE : RANDOMIZE USR 35000 PC=0x12B4', {'python': 1}))
     for part in chunks(lines, 32):
         jobs.append(('line', part))
-    pes = [keysdrv.gen_pe2e(rnd, V, python=(i % 8 == 0)) for i in range(64 if q else 900)]
+    pes = [keysdrv.gen_pe2e(rnd, V, python=(i % 8 == 0)) for i in range(96 if q else 2700)]
     for part in chunks(pes, 32):
         jobs.append(('pe2e', part))
-    plans = [keysdrv.gen_plan(rnd, V) for _ in range(240 if q else 3000)] + [(None, 128), ('', 128), ('ENTER', 48), ('a  b', 48)]
+    plans = [keysdrv.gen_plan(rnd, V) for _ in range(300 if q else 6000)] + [(None, 128), ('', 128), ('ENTER', 48), ('a  b', 48)]
     for part in chunks(plans, 8):
         jobs.append(('plan', part))
-    sch = keysdrv.gen_sched_cases(rnd, V, 700 if q else 12000, 1 if q else 2)
+    sch = keysdrv.gen_sched_cases(rnd, V, 900 if q else 25000, 1 if q else 2)
     for part in chunks(sch, 8):
         jobs.append(('sched', part))
-    pl = keysdrv.gen_plist_cases(rnd, V, 400 if q else 6000)
+    pl = keysdrv.gen_plist_cases(rnd, V, 500 if q else 12000)
     for part in chunks(pl, 4):
         jobs.append(('plist', part))
     return [(k, wd, sd * 1000 + i, items) for i, (k, items) in enumerate(jobs)]
@@ -130,7 +130,7 @@ def scan_case(t):
             cur.append(v)
             if len(cur) == 8:
                 scans.append(cur)
-    return {'kind': 'scan', 'words': t['words'], 'delay': t['delay'], 'scans': scans, 'sim': t['sim'], 'raw': t['raw'], 'left': t['left']}
+    return {'kind': 'scan', 'words': t['words'], 'delay': t['delay'], 'scans': scans, 'sim': t['sim'], 'raw': t['raw'], 'left': t['left'], 'gen': t['gen']}
 
 
 def judge_cases(rep, cases, wd):
@@ -202,6 +202,18 @@ def small(c, limit=3000):
     return {k: v for k, v in c.items() if len(str(v)) < limit}
 
 
+def replay_of(c, **more):
+    """What a replay needs (the generated input) and a short view of what was observed."""
+    d = {'kind': c['kind'], 'gen': c['gen']}
+    for k in ('raw', 'sim', 'style', 'err', 'slots', 'keys', 'stop', 'delay', 'line', 'pc', 'left', 'ended', 'resumed', 'pressing', 'drift', 'deviations'):
+        if k in c and len(str(c[k])) < 2000:
+            d[k] = c[k]
+    if 'obs' in c:
+        d['observed_reads'] = [[s[1], v] for s, v in zip(c['steps'], c['obs']) if s[0] == 'r'][:400]
+    d.update(more)
+    return d
+
+
 def run(tier):
     rep = Report(PID, tier)
     timer = Timer()
@@ -216,6 +228,8 @@ def run(tier):
     def mc():
         try:
             box['mc'] = tlc.model_check('keys', 'KeyboardMC', 'Keyboard_mc.cfg', timeout=1800, workers=4)
+            # vacuity guard: a matrix that combines half-rows by OR must be rejected (by the matrix assumption or by MCCombine)
+            box['neg'] = tlc.run(os.path.join(tlc.SPEC, 'keys'), 'KeyboardMC', 'Keyboard_neg.cfg', workers=2, timeout=600, tag='KeyboardMC-neg')
         except BaseException as e:   # noqa: B902
             box['exc'] = e
     th = threading.Thread(target=mc)
@@ -225,15 +239,6 @@ def run(tier):
     jobs = plan_jobs(tier, sd, V, wd)
     recs = drive(jobs)
     log('E05: %s in %.1fs' % (', '.join('%d %s' % (len(v), k) for k, v in sorted(recs.items())), timer.s()))
-    th.join()
-    if 'exc' in box:
-        raise box['exc']
-    r = box['mc']
-    rep.add_tlc(r, 'KeyboardMC')
-    rep.model_violation(r, 'KeyboardMC')
-    if not r.violated and r.distinct < 2000:
-        raise MachineryError('KeyboardMC explored only %d states' % r.distinct)
-
     # ---- single observations
     scans = [scan_case(t) for t in recs['load'] if t['style'] == 'rom']
     cases = recs['sched'] + recs['plist'] + recs['plan'] + recs['line'] + scans
@@ -265,17 +270,17 @@ def run(tier):
             cand[key] += 1
             cand_ex.setdefault(key, what)
             continue
-        rep.violation(key, what, small(c) | {'clause': clause})
+        rep.violation(key, what, replay_of(c, clause=clause))
     if STRICT:
         for c in cases:
             for d in c.get('drift', []):
                 if d not in ('skip', 'undefined-word-accepted', 'undefined-key-accepted', 'chord-arity', 'enter-not-last', 'bad-address-accepted'):
-                    rep.violation('strict:%s:%s' % (c['kind'], d), 'drift counted as violation (VERIF_E05_STRICT): %s' % small(c), small(c))
+                    rep.violation('strict:%s:%s' % (c['kind'], d), 'drift counted as violation (VERIF_E05_STRICT): %s' % small(c), replay_of(c, clause='drift:' + d))
 
     # ---- traces
     pe_err = [t for t in recs['pe2e'] if t['err']]
     for t in pe_err:
-        rep.violation('press:e2e:%s:tool-error' % t['sim'], 'tap2sna --press %r %s: %s' % (t['raw'], t['cfg'], t['err']), small(t))
+        rep.violation('press:e2e:%s:tool-error' % t['sim'], 'tap2sna --press %r %s: %s' % (t['raw'], t['cfg'], t['err']), replay_of(t, clause='tool-error'))
     traces = recs['load'] + recs['press'] + [t for t in recs['pe2e'] if not t['err']]
     bad, tdrift, dev = judge_traces(rep, traces, wd)
     for t, l, clause in bad:
@@ -289,7 +294,20 @@ def run(tier):
         else:
             key = 'press:e2e:%s:%s' % (t['sim'], clause)
         rep.violation(key, '%s %r on %s: step %d %s (%s) read %s: %s' % (
-            t['kind'], t['raw'], t['sim'], l, st, t['forms'][l - 1] if st else '', t['obs'][l - 1] if st else None, clause), small(t, 6000) | {'step': l, 'clause': clause})
+            t['kind'], t['raw'], t['sim'], l, st, t['forms'][l - 1] if st else '', t['obs'][l - 1] if st else None, clause), replay_of(t, step=l, clause=clause))
+
+    th.join()
+    if 'exc' in box:
+        raise box['exc']
+    r = box['mc']
+    rep.add_tlc(r, 'KeyboardMC')
+    rep.model_violation(r, 'KeyboardMC')
+    if not r.violated and r.distinct < 8000:
+        raise MachineryError('KeyboardMC explored only %d states' % r.distinct)
+    rn = box['neg']
+    rep.add_tlc(rn, 'KeyboardMC-neg(expected failure)')
+    if not (any('MCCombine' in v for v in rn.violated) or ('Assumption' in rn.out and 'is false' in rn.out)):
+        raise MachineryError('Keyboard_neg: an OR-combining matrix is no longer rejected (vacuous CombineByAnd?)\n' + rn.out[-1500:])
 
     # ---- vacuity
     stats = collections.Counter()
@@ -316,13 +334,17 @@ def run(tier):
     need = ['sched:ok', 'sched:error', 'plist:ok', 'plist:error', 'plan:48:ok', 'plan:128:ok', 'line:ok', 'load:reads-showing-keys', 'press:reads-showing-keys',
             'pe2e:reads-showing-keys', 'press:exhausted', 'press:stopped', 'pe2e:groups=2'] + ['load:' + s for s in keysdrv.SIMS] + ['press:' + s for s in keysdrv.SIMS]
     empty = [k for k in need if not stats[k]]
-    if empty:
+    if rep.violations:
+        pass                        # what was found is reported; the vacuity guards are about runs that find nothing
+    elif empty:
         raise MachineryError('E05: vacuous classes: %s' % empty)
-    if skipped > len(recs['line']) // 3:
+    if rep.violations:
+        pass
+    elif skipped > len(recs['line']) // 3:
         raise MachineryError('E05: the specification skipped %d of %d generated command lines' % (skipped, len(recs['line'])))
-    if stats['line:distinct-codes-typed'] < (120 if tier == 'quick' else 180):
+    elif stats['line:distinct-codes-typed'] < (120 if tier == 'quick' else 180):
         raise MachineryError('E05: only %d distinct character codes were typed end to end' % stats['line:distinct-codes-typed'])
-    if not dev:
+    elif not dev:
         raise MachineryError('E05: no read exercised the difference between the published matrix and the load tracer')
 
     for c in cases:
@@ -361,3 +383,55 @@ def run(tier):
     ]
     rmworkdir('e05')
     return rep.finish()
+
+
+def replay(path):
+    """./check E05 --replay replays/E05-n.json : drive the recorded key spec / program / tape through the code of the current tree
+    again and let KeyCases / KeyTrace judge the fresh observation."""
+    from ..drivers import replaylib
+    d, rp = replaylib.load(path, PID)
+    replaylib.need(rp, path, 'kind', 'gen')
+    wd = workdir('replay-e05')
+    cbuild.build()
+    rep = Report(PID, 'replay')          # collects what the judges say; never finished (no evidence written)
+    g = rp['gen']
+    kind = rp['kind']
+    found = []
+    try:
+        if kind in ('sched', 'plist', 'plan', 'line', 'scan'):
+            if kind == 'sched':
+                c = keysdrv.observe_sched(g['words'], g['delay'])
+            elif kind == 'plist':
+                c = keysdrv.observe_plist(g['words'])
+            elif kind == 'plan':
+                c = keysdrv.observe_plan(wd, g['load'], g['machine'], keysdrv.tiny_tape(os.path.join(wd, 'tiny.tap')))
+            elif kind == 'line':
+                c = keysdrv.observe_line(wd, g['load'], g['cfg'], keysdrv.tiny_tape(os.path.join(wd, 'tiny.tap')), 'replay')
+            else:
+                c = scan_case(keysdrv.run_load_trace(g))
+            fails, drift = judge_cases(rep, [c], wd)
+            print('  observed: %s' % small({k: v for k, v in c.items() if k not in ('words', 'chars', 'gen')}, 1500))
+            found = ['%s: %s' % (kind, clause) for _, clause in fails]
+            if drift:
+                print('  drift: %s' % dict(drift))
+        elif kind in ('load', 'press', 'pe2e'):
+            if kind == 'load':
+                t = keysdrv.run_load_trace(g)
+            elif kind == 'press':
+                t = keysdrv.run_press_trace(g)
+            else:
+                t = keysdrv.observe_pe2e(wd, g, 'replay')
+            if t.get('err'):
+                found = ['pe2e: tool-error: %s' % t['err']]
+            else:
+                bad, tdrift, dev = judge_traces(rep, [t], wd)
+                found = ['%s: step %d %s read %s: %s' % (kind, l, t['steps'][l - 1] if l else None, t['obs'][l - 1] if l else None, clause)
+                         for _, l, clause in bad]
+                if tdrift or dev:
+                    print('  drift: %s deviations: %s' % (dict(tdrift), dict(dev)))
+        else:
+            raise MachineryError('unusable replay file %s: unknown kind %r' % (path, kind))
+        found += ['model: %s' % k for k, _, _ in rep.violations if k.startswith('model:')]
+    finally:
+        rmworkdir('replay-e05')
+    return replaylib.verdict(PID, path, found)
